@@ -37,17 +37,21 @@ class _Captured(BaseException):
     pass
 
 
-def translate(desc, ctx, answer=None):
+def translate(desc, ctx, answer=None, model=None):
     """Run the real encoder on a fresh model. Returns (clauses or None, named bool maps, result-or-None).
 
     answer: None -> abort after capture; else a function clauses -> solvor Result to hand back to the encoder
     (used to exercise the encoder's decoding of SAT models).
     """
     enc_mod = importlib.import_module("solvor.cp_encoder")
-    try:
-        m, V = cp_sem.build(desc)
-    except cp_sem.Unbuildable:
-        raise Discard()
+    if model is not None:
+        m, V = model  # encode the same Model object again (Model.solve does this on every call and on the hint-free retry)
+    else:
+        try:
+            m, V = cp_sem.build(desc)
+        except cp_sem.Unbuildable:
+            raise Discard()
+    translate.last_model = (m, V)
     box = {}
 
     def fake_solve_sat(clauses, **kw):
@@ -87,6 +91,7 @@ def run(desc, ctx):
     if cp_sem.domain_product(desc) > 700:
         raise Discard()
     clauses, maps, _ = translate(desc, ctx)
+    first_model = translate.last_model
     ctx.count("programs")
     sols = cp_sem.solution_set(desc)
     sol_keys = {tuple(sorted(s.items())) for s in sols}
@@ -128,6 +133,20 @@ def run(desc, ctx):
             raise Violation("missing-model:" + "+".join(sorted(kinds)), {"assignment": a})
         if mod is not None and len(witnesses) < 3:
             witnesses.append((a, mod))
+
+    # a second encoding of the same Model object (what a second Model.solve() does) has the same models again
+    clauses2, maps2, _ = translate(desc, ctx, model=first_model)
+    ctx.label("re-encoded-same-model")
+    F2 = sat_ref.CNF(clauses2)
+    for a in cp_sem.assignments(desc):
+        asg = {abs(l): (l > 0) for l in units(maps2, a)}
+        mod = F2.solve(asg)
+        is_sol = tuple(sorted(a.items())) in sol_keys
+        if mod is not None and not is_sol:
+            broken = next(c for c in desc["cons"] if not cp_sem.holds(c, a))
+            raise Violation(f"re-encoding:extra-model:{broken[0]}", {"assignment": a, "violated": broken})
+        if mod is None and is_sol:
+            raise Violation("re-encoding:missing-model:" + "+".join(sorted(kinds)), {"assignment": a})
 
     # the encoder's own decoding of reference models gives back a
     if witnesses:
